@@ -1,5 +1,6 @@
 SPECIFICATION Spec
 CONSTANTS MaxToks = 4
+          BigAlphabet = FALSE
           Export = TRUE
 INVARIANT Bounded
 INVARIANT Emit
